@@ -7,6 +7,20 @@
 //! Exit status: 0 done (verdicts are in the report), 2 harness/tool error, 3 watchdog
 //! (the code under test did not return: the report names the case).
 
+// A host-side defmt logger that drops everything: needed to link with the library's `defmt` feature enabled.
+#[cfg(feature = "defmtlog")]
+mod defmtlog {
+    #[defmt::global_logger]
+    struct Logger;
+    unsafe impl defmt::Logger for Logger {
+        fn acquire() {}
+        unsafe fn flush() {}
+        unsafe fn release() {}
+        unsafe fn write(_bytes: &[u8]) {}
+    }
+    defmt::timestamp!("{=u32}", 0);
+}
+
 mod app;
 mod cases;
 pub mod dut;
